@@ -773,6 +773,7 @@ func (rles RLEs) Partition(blockSize Point3d) (BlockRLEs, error) {
 func (rles RLEs) FitToBounds(bounds *OptionalBounds) RLEs {
 	newRLEs := make(RLEs, 0, len(rles))
 	if bounds == nil {
+		newRLEs = newRLEs[:len(rles)]
 		copy(newRLEs, rles)
 		return newRLEs
 	}
